@@ -886,8 +886,35 @@ def channel_writers(chk):
                             stmt="rebinds %s in %s" % (t.attr, fi.name),
                         )
                         ok = False
+    # leaving a `with` / `async with` block on the channel closes it (trio.MemorySendChannel.__exit__ / __aexit__ -> close):
+    # outside the trio run that ends the hand-over after the first use
+    ch = attrs[0] if attrs and attrs[0] == common.runner_facts(prog, cls).get("submit_channel") else None
+    if ch:
+        for fis in cls.methods.values():
+            for fi in fis:
+                if fi is entry:
+                    continue
+                aliases = {"self." + ch}
+                for n in ast.walk(fi.node):
+                    if isinstance(n, ast.Assign) and len(n.targets) == 1 and isinstance(n.targets[0], ast.Name) and util.dotted(n.value) in aliases:
+                        aliases.add(n.targets[0].id)
+                for n in ast.walk(fi.node):
+                    if isinstance(n, (ast.With, ast.AsyncWith)):
+                        for item in n.items:
+                            ce = item.context_expr
+                            if util.dotted(ce) in aliases:
+                                chk.count()
+                                chk.bad(
+                                    rule,
+                                    fi.qual,
+                                    "%s uses the submit channel as a context manager (%s): leaving the block closes the channel, so every later registration -- from any thread -- is discarded or fails although the runner is still running"
+                                    % (fi.name, util.unparse(ce)),
+                                    node=n,
+                                    stmt="with-closes %s in %s" % (ch, fi.name),
+                                )
+                                ok = False
     if ok and n_w:
-        chk.ok(rule, cls.qual, "the submit channel and the trio token are bound only in the constructor and inside the trio run (%d writes)" % n_w, node=cls.node)
+        chk.ok(rule, cls.qual, "the submit channel and the trio token are bound only in the constructor and inside the trio run (%d writes); the channel is not used as a context manager outside the run" % n_w, node=cls.node)
 
 
 def channel_capacity(chk):
@@ -935,6 +962,9 @@ def channel_capacity(chk):
 
 
 def run(chk):
+    from .. import libfacts
+
+    chk.facts.update({k: v for k, v in libfacts.cross_read().items() if "trio" in k})
     chk.guard("O3.8", TRIO_RUNNER, channel_capacity, chk)
     chk.guard("O3.5", TRIO_RUNNER, channel_writers, chk)
     chk.guard("O3.5", TRIO_RUNNER, send_after_close, chk)
@@ -946,6 +976,9 @@ def run(chk):
     chk.guard("O3.10", META, mode_switch_atomic, chk)
     chk.guard("O3.6", SERVICE_UNIT, service_typestate, chk)
     chk.guard("O3.7", SERVICE_RUNNER, sweep_rules, chk)
+    from . import c12
+
+    chk.guard("O3.7", SERVICE_RUNNER, c12.flag_writers, chk, "O3.7")
     # "adopt still does not raise while the runtime is finishing its payloads' cleanup": the runner mapping is only
     # emptied after close-all has closed and joined the runners (O2.2, shared with C02)
     from . import c02
